@@ -7,7 +7,9 @@ for sid in sorted(os.listdir(base)):
     m = json.load(open(os.path.join(base, sid, 'meta.json')))
     first = open(os.path.join(base, sid, 'README.txt')).read().strip().splitlines()
     what = ' '.join(first[:3])[:170].replace('|', '/')
-    rows.append('| `%s` | %s | %s | %s | %s |' % (sid, m['breaks_property'], what, ', '.join(m['checks_that_fire']) or '—', 'yes' if m['target_check_fires'] else 'no'))
-print('| seed | targets | change (from the author\'s README) | checks that fire | target check fires |')
-print('|---|---|---|---|---|')
+    nv = m.get('checks_analysis_broken', [])
+    tgt = 'yes' if m['target_check_fires'] else ('no verdict' if m['breaks_property'] in nv else 'no')
+    rows.append('| `%s` | %s | %s | %s | %s | %s |' % (sid, m['breaks_property'], what, ', '.join(m['checks_that_fire']) or '—', tgt, ', '.join(nv) or '—'))
+print('| seed | targets | change (from the author\'s README) | checks that report a violation | target check | checks without a verdict (exit 2) |')
+print('|---|---|---|---|---|---|')
 print('\n'.join(rows))
